@@ -365,6 +365,27 @@ def check_refused_exc(ctx):
     ctx.expect(paths, ret=1)
 
 
+def check_owner_unwound(ctx):
+    from specs.C19 import install_exc
+    install_exc(ctx.eng)
+    base = ctx.sandbox_base(32)
+    how = ctx.sym("how", 32)
+    ctx.assume(z3.ULE(how, 1))
+    paths = ctx.run("k_owner_unwound", [base, how])
+    for q in paths:
+        if q.status != "ret":
+            ctx.fail(q, "ended %s %s" % (q.status, q.info))
+            continue
+        lg = q.user["log"]
+        e7 = [e for e in lg if e[0] == 7]
+        e9 = [e for e in lg if e[0] == 9]
+        v = lambda x: x if not isinstance(x, int) else BV(x, 64)
+        ctx.require(q, z3.And(z3.BoolVal(len(e7) == 1 and len(e9) == 1), v(e9[0][1]) == 0) if e9 else z3.BoolVal(False),
+                    "an owner destroyed during exception unwinding releases its token: the token no longer resolves")
+    ctx.only(paths, "ret")
+    ctx.expect(paths, ret=2)
+
+
 def check_apm_max(ctx, cursor):
     """limit = the largest value of the token type (255): the table is full except for at most one symbolic slot;
     the cursor is a given concrete position (0 = wrapped after issuing token 255)"""
@@ -417,6 +438,8 @@ def jobs(tier, seed):
     out.append(Job("C15_owner_two", osrc, [dict(name="owners of two sandboxes with equal tokens", fn=check_two_sandboxes, unwind=400)], native=False))
     out.append(Job("C15_b32", '#include "C15_b32.inc"\n', [dict(name="32-bit token table on a 4 GiB sandbox", fn=check_b32, unwind=400)], native=False))
     out.append(Job("C15_refused_exc", '#include "C15_exc.inc"\n', [dict(name="refused app-pointer registration leaves no token (exceptions)", fn=check_refused_exc, unwind=400)],
+                   native=False, flags=["-D_GLIBCXX_EXTERN_TEMPLATE=0"]))
+    out.append(Job("C15_owner_unwound", '#include "C15_exc.inc"\n', [dict(name="owner destroyed during exception unwinding releases its token", fn=check_owner_unwound, unwind=400)],
                    native=False, flags=["-D_GLIBCXX_EXTERN_TEMPLATE=0"]))
     out.append(Job("C15_bm_kinds", '#include "C15_bm.inc"\n', [dict(name="BM app pointers to int and to function-pointer objects", fn=check_bm_kinds, unwind=400)], native=False))
     out.append(Job("C15_var_limit", '#include "C15_var.inc"\n', [dict(name="per-sandbox token limit on a backend with per-sandbox memory size", fn=check_var_limit, unwind=400)], native=False))
